@@ -22,7 +22,7 @@ def minimise(mod, case, tag, budget=400, wall=45.0):
         if tried[0] >= budget or time.time() - t0 > wall:
             return None
         tried[0] += 1
-        status, res = kernel.run_isolated(mod, c, timeout=300)
+        status, res = kernel.run_case_process(mod, c)
         if status != 'ok':
             return None
         v = res['viol']
